@@ -1333,6 +1333,7 @@ void IGXMLScanner::scanReset(const InputSource& src)
     }
     fUndeclaredAttrRegistry->removeAll();
     fDTDElemNonDeclPool->removeAll();
+    fSchemaElemNonDeclPool->removeAll();
 }
 
 
